@@ -543,8 +543,18 @@ def main(pid, fn):
         fa = getattr(c, "finish_args", None) or dict(rule="aborted by a panic of the code under test", distinct_nontrivial=0)
         rc = c.finish(**fa)
     except Inconclusive as e:
-        print("INCONCLUSIVE %s=%s %s" % ("spec" if pid.startswith("E") else "property", pid, e), flush=True)
-        rc = 2
+        if c.violations:
+            # violations already observed on the real code (each re-confirmed by its check) stand, whatever a LATER stage of the
+            # run could not conclude -- very often it could not conclude BECAUSE of them (a driver that cannot complete, part of
+            # the generated universe not realised).  They are reported; the unfinished rest is named in the evidence.
+            print("NOTE %s=%s a later stage was inconclusive (%s); the violations observed before it are reported" % (
+                "spec" if pid.startswith("E") else "property", pid, str(e)[:300]), flush=True)
+            c.extra["inconclusive_after_violations"] = str(e)[:500]
+            fa = getattr(c, "finish_args", None) or dict(rule="aborted after violations: a later stage was inconclusive", distinct_nontrivial=0)
+            rc = c.finish(**fa)
+        else:
+            print("INCONCLUSIVE %s=%s %s" % ("spec" if pid.startswith("E") else "property", pid, e), flush=True)
+            rc = 2
     except Exception:
         import traceback
         traceback.print_exc()
